@@ -81,7 +81,7 @@ def classify(prop, codemod, before, after1, after2):
     """Finding classes (narrow, decidable on the input)."""
     name = codemod.split("/")[-1]
     import hashlib
-    hit = _input_classes().get((codemod, hashlib.sha1(before.encode()).hexdigest()[:12]))
+    hit = _input_classes().get((codemod, hashlib.sha1(before.encode("utf-8", "surrogateescape")).hexdigest()[:12]))
     if hit:
         return hit
     if prop == "C02" and name == "timezone-aware-datetime":
